@@ -10,6 +10,7 @@ import (
 	"reflect"
 	"strings"
 	"testing"
+	"time"
 
 	"github.com/tailscale/setec/client/setec"
 	"pgregory.net/rapid"
@@ -257,7 +258,11 @@ func runC20(t *testing.T, c StructCase) (v *h.Violation, info h.Info) {
 		}
 	} else {
 		info.Class("via-newstore")
-		st, err = setec.NewStore(context.Background(), setec.StoreConfig{Client: svc, Structs: []setec.Struct{{Value: arg, Prefix: c.Prefix}}, PollInterval: -1, Logf: nolog})
+		// a bounded context: a shape that is wrongly accepted may name a secret the service does not have,
+		// and NewStore would then retry in real time for ever
+		nctx, ncancel := context.WithTimeout(context.Background(), 1500*time.Millisecond)
+		st, err = setec.NewStore(nctx, setec.StoreConfig{Client: svc, Structs: []setec.Struct{{Value: arg, Prefix: c.Prefix}}, PollInterval: -1, Logf: nolog})
+		ncancel()
 		if st != nil {
 			defer st.Close()
 		}
